@@ -1,10 +1,17 @@
 #!/bin/bash
 # Evaluate every seeded change against the quick check of its own property (and extra properties given in a map).
+# usage: tools/eval_all_seeds.sh [worker-index nworkers]   (several workers share the slot pool; each has its own scratch worktree)
 cd /verif
+W=${1:-0}; N=${2:-1}
+export VERIF_SEED_REPO=/tmp/seedrepo$W
 declare -A EXTRA=( [C03-1]="C01" [C03-2]="C01" [C03-3]="C02" [C05-2]="C02" [C19-2]="C02" [C16-2]="C12" [C12-2]="C16" [C14-3]="C05" [C06-3]="C01" [C17-1]="C06" [C07-1]="" )
+i=0
 for d in seeded/C*; do
   n=$(basename $d)
+  i=$((i+1))
+  [ $((i % N)) -eq $W ] || continue
   [ -f $d/eval.json ] && [ -z "${FORCE:-}" ] && continue
   p=${n%-*}
   tools/eval_seed.py $d $p ${EXTRA[$n]:-} 2>&1 | tail -3 | sed "s/^/[$n] /"
 done
+git -C /repo worktree remove --force $VERIF_SEED_REPO 2>/dev/null
